@@ -57,6 +57,30 @@ MOTORS = ["m1", "m2"]
 DETS = ["d1", "d2"]
 
 
+def _memo_ast_parse():
+    """engine_impl.install_proxy parses run_engine.py (60 ms) for EVERY scenario to find _run's line ranges; the
+    sweeps run thousands of scenarios on the same source: memoise ast.parse for that one big unchanged string."""
+    import ast
+
+    if getattr(ast.parse, "_c03_memo", False):
+        return
+    orig, cache = ast.parse, {}
+
+    def parse(source, *a, **k):
+        if isinstance(source, str) and len(source) > 50000 and not a and not k:
+            if source not in cache:
+                cache.clear()
+                cache[source] = orig(source)
+            return cache[source]
+        return orig(source, *a, **k)
+
+    parse._c03_memo = True
+    ast.parse = parse
+
+
+_memo_ast_parse()
+
+
 def extract(ctx):
     return engine_extract.extract()
 
@@ -64,7 +88,7 @@ def extract(ctx):
 def _facts():
     if not hasattr(_facts, "v"):
         f = engine_extract.extract()
-        _facts.v = (set(f["uncacheable"]), set(f["resetsCheckpoint"]))
+        _facts.v = (set(f["uncacheable"]), set(f["resets_checkpoint"]))
     return _facts.v
 
 
@@ -101,7 +125,8 @@ def gen_wf_plan(rng, npoints=None, unsafe_tail=False):
     def point(run, tail=False):
         b = [M("checkpoint")]
         grp = rng.choice(["g", "h", None])
-        sets = [m for m in MOTORS if rng.random() < 0.6]
+        tail_motor = rng.choice(MOTORS) if tail else None
+        sets = [m for m in MOTORS if rng.random() < 0.6 and m != tail_motor]
         if rng.random() < 0.1 and sets:
             sets.append(sets[0])
         for m in sets:
@@ -121,7 +146,7 @@ def gen_wf_plan(rng, npoints=None, unsafe_tail=False):
         if rng.random() < 0.1:
             b.append(M("null"))
         if tail:
-            b.append(M("set", rng.choice(MOTORS), 77, group="z"))
+            b.append(M("set", tail_motor, 77, group="z"))
             b.append(M("wait", None, group="z"))
             b += bundle(run, "after")
         return b
@@ -166,7 +191,12 @@ def gen_wf_plan(rng, npoints=None, unsafe_tail=False):
 
 
 def base_scenario(rng, plan):
-    return {"record_interruptions": rng.random() < 0.5, "devices": devices(), "plan": plan, "script": {}, "decisions": ["resume"] * 12, "max_arrivals": 900}
+    devs = devices()
+    if rng.random() < 0.3:
+        # slow motor: its first moves complete only when the loop is otherwise idle (the plan blocks in `wait`:
+        # quiescence arrivals, where an interruption can land too); the position itself is deterministic
+        devs[rng.choice(MOTORS)]["modes"]["set"] = ["pending"] * rng.choice([1, 2, 6])
+    return {"record_interruptions": rng.random() < 0.5, "devices": devs, "plan": plan, "script": {}, "decisions": ["resume"] * 12, "max_arrivals": 900}
 
 
 def null_plan(rng):
@@ -266,12 +296,11 @@ def where_landed(sc, o):
             kind = "suspend" if a["a"] == "suspend" else ("pause-deferred" if a.get("defer") else "pause")
             i = int(k)
             if i >= len(o["arrivals"]):
-                names.append(f"{kind}@never")
-                continue
+                continue   # the run was over before this request could land
             last = "start"
             for m, t in zip(o["msgs"], msg_t):
                 if t < arr_t[i]:
-                    last = m[0] + ("" if m[3] is not None or not m[0].startswith("_") else "")
+                    last = m[0]
                 else:
                     break
             names.append(f"{kind}@{o['arrivals'][i]}-after-{last}")
@@ -319,11 +348,56 @@ def returns_ok(o):
     return bad, f4
 
 
+def _msg_table(sc):
+    """static id -> msg statement of the scenario (plan + pre/post plans of suspend actions)"""
+    tab = {}
+
+    def walk(st):
+        if st is None:
+            return
+        if st["k"] == "msg":
+            if "id" in st:
+                tab[st["id"]] = st
+        elif st["k"] == "seq":
+            for x in st["body"]:
+                walk(x)
+        elif st["k"] == "try":
+            walk(st["body"]), walk(st.get("handler")), walk(st.get("fin"))
+
+    walk(sc.get("plan"))
+    for k in sc.get("script", {}):
+        for a in sc["script"][k]:
+            if a["a"] == "suspend":
+                walk(a.get("pre")), walk(a.get("post"))
+    return tab
+
+
+def cache_to_rmsgs(K, pos_before, sets_in_K):
+    """the cached messages (message log entries) as small-model messages: set d v | bundle objs | other;
+    the value of a `set` comes from the device ledger (sets_in_K: the ledger values in order)"""
+    out, cur, it = [], None, iter(sets_in_K)
+    for m in K:
+        cmd, obj = m[0], m[1]
+        if cmd == "set":
+            out.append({"k": "set", "dev": obj, "v": next(it, None)})
+        elif cmd == "create":
+            cur = []
+        elif cmd == "read" and cur is not None:
+            cur.append(obj)
+        elif cmd == "save" and cur is not None:
+            out.append({"k": "bundle", "stream": "s", "objs": cur})
+            cur = None
+        elif cmd == "drop":
+            cur = None
+    return out
+
+
 def replay_safe(sc, o):
     """The hypothesis ReplaySafe evaluated on the implementation's logs: at every rewind (resume() after a pause,
     _start_suspender) let K = the messages cached since the cache was last emptied (reconstructed from the message
     log with the extracted caching rule), posT the motor positions now and posC those when the cache was emptied:
-    every device a bundled read in K depends on is set earlier in K or has posT = posC."""
+    every device a bundled read in K depends on is set earlier in K or has posT = posC.
+    -> (all safe, [per rewind: kind, cache commands, safe, why, request for the Lean `replaySafeB`])"""
     unc, resets = _facts()
     kinds = {n: s["kind"] for n, s in sc["devices"].items()}
     motors = [n for n, k in kinds.items() if k == "motor"]
@@ -332,13 +406,14 @@ def replay_safe(sc, o):
         merged += [(t, key, e) for t, e in zip(o["ticks"][key], o[key])]
     merged.sort(key=lambda x: x[0])
     pos = {m: 0 for m in motors}
-    st = {"cache": [], "posC": dict(pos), "rewindable": True}
+    st = {"cache": [], "posC": dict(pos), "rewindable": True, "sets": []}
     helpers = []
     rewinds = []
 
     def reset():
         if st["cache"] is not None:
             st["cache"] = []
+            st["sets"] = []
             st["posC"] = dict(pos)
 
     def rewind(kind):
@@ -357,14 +432,22 @@ def replay_safe(sc, o):
                 for d in deps:
                     if d not in set_so_far and pos[d] != st["posC"][d]:
                         ok, why = False, f"{obj} depends on {d}: {st['posC'][d]} at the checkpoint, {pos[d]} at the interruption, not set earlier in the cache"
-        rewinds.append({"kind": kind, "cache": [m[0] for m in K], "safe": ok, "why": why})
+        # NB a bundle interrupted before its `save` emits nothing: only completed bundles count in the Lean version;
+        # the Python version above is (harmlessly) stricter: it also looks at the reads of an unfinished bundle
+        req = {"op": "safe", "devices": [{"name": n, "kind": s["kind"], "offset": s.get("offset", 0)} for n, s in sorted(sc["devices"].items())],
+               "K": cache_to_rmsgs(K, None, st["sets"]), "posT": dict(pos), "posC": dict(st["posC"])}
+        rewinds.append({"kind": kind, "cache": [m[0] for m in K], "safe": ok, "why": why, "lean": req})
         if st["cache"] is not None:
-            st["cache"] = []   # _rewind empties the cache; the snapshot (counters, hence posC) stays
+            st["cache"] = []   # _rewind empties the cache; the counters' snapshot stays, positions restart from here
+            st["sets"] = []
+            st["posC"] = dict(pos)
 
     for _, key, e in merged:
         if key == "ledger":
             if e[1] == "set" and e[2] != "raise":
                 pos[e[0]] = e[2]
+                if st["cache"] is not None and st["rewindable"]:
+                    st["sets"].append(e[2])
         elif key == "returns":
             if e[1] == "raise:RunEngineInterrupted" and e[2] == "paused":
                 rewind("pause")
@@ -415,54 +498,59 @@ def oracle(sc, o):
 # ------------------------------------------------------------------------------------------------ small replay model
 def replay_trace(sc, o):
     """the implementation's executed message trace as steps of the small replay model (Engine/Replay.lean):
-    set / bundle (create, reads, save) / checkpoint (cache emptied: counters snapshotted) / rewind"""
+    set (value from the device ledger) / bundle (create, reads, save; stream name from the plan statement of the
+    `create`) / checkpoint (cache emptied: counters snapshotted) / rewind"""
     unc, resets = _facts()
-    kinds = {n: s["kind"] for n, s in sc["devices"].items()}
+    tab = _msg_table(sc)
     merged = []
-    for key in ("msgs", "ledger", "returns", "docs"):
+    for key in ("msgs", "ledger", "returns"):
         merged += [(t, key, e) for t, e in zip(o["ticks"][key], o[key])]
     merged.sort(key=lambda x: x[0])
     steps = []
     cur = {}      # run key -> [stream, [objs]] of the open bundle
     keyrun = {}   # run key -> index of the run it names now
     nruns = 0
-    cache_len = 0  # only to mirror `if len_msg_cache` of _rewind
+    cache_len = 0  # mirrors `if len_msg_cache` of _rewind
     rewindable = [True]
     helpers = []
+
+    def do_rewind():
+        nonlocal cache_len, cur
+        steps.append({"k": "rewind", "nonempty": cache_len > 0})
+        if cache_len:
+            cur = {}
+        cache_len = 0
+
     for _, key, e in merged:
         if key == "returns":
             if e[1] == "raise:RunEngineInterrupted" and e[2] == "paused":
-                steps.append({"k": "rewind", "nonempty": cache_len > 0})
-                if cache_len:
-                    cur = {}
-                cache_len = 0
+                do_rewind()
         elif key == "msgs":
-            cmd, obj, run = e[0], e[1], e[2]
+            cmd, obj, run, mid = e
             rk = run or ""
             if rewindable[0] and cmd not in unc:
                 cache_len += 1
             if cmd == "open_run":
                 keyrun[rk] = nruns
                 nruns += 1
-            if cmd == "set":
-                pass  # the value comes from the device ledger
             elif cmd == "create":
-                cur[rk] = [None, []]
+                name = (tab.get(mid, {}).get("kw") or {}).get("name", "primary")
+                cur[rk] = [name, []]
             elif cmd == "read" and rk in cur:
                 cur[rk][1].append(obj)
             elif cmd == "save" and rk in cur:
                 b = cur.pop(rk)
-                steps.append({"k": "bundle", "run": keyrun.get(rk, -1), "objs": b[1], "pending_stream": True})
+                if b[1]:
+                    steps.append({"k": "bundle", "stream": f"{keyrun.get(rk, -1)}/{b[0]}", "objs": b[1]})
+            elif cmd == "drop":
+                cur.pop(rk, None)
             if cmd in resets:
                 steps.append({"k": "checkpoint"})
                 cache_len = 0
             elif cmd == "_start_suspender":
-                steps.append({"k": "rewind", "nonempty": cache_len > 0})
-                if cache_len:
-                    cur = {}
-                cache_len = 0
+                do_rewind()
                 helpers.append([rewindable[0], 0])
-            elif cmd == "rewindable" and e[3] is None and helpers:
+            elif cmd == "rewindable" and mid is None and helpers:
                 h = helpers[-1]
                 new = False if h[1] == 0 else h[0]
                 if h[1] == 0:
@@ -476,42 +564,42 @@ def replay_trace(sc, o):
         elif key == "ledger":
             if e[1] == "set" and e[2] != "raise":
                 steps.append({"k": "set", "dev": e[0], "v": e[2]})
-        elif key == "docs":
-            if e["k"] == "event" and e["stream"] != "interruptions":
-                # the stream name of the bundle just saved (create's name is not in the message log)
-                for s in reversed(steps):
-                    if s["k"] == "bundle" and s.get("pending_stream"):
-                        s["stream"] = e["stream"]
-                        del s["pending_stream"]
-                        break
-    steps = [s for s in steps if not s.get("pending_stream")]
-    for s in steps:
-        if s["k"] == "bundle":
-            s["stream"] = f"{s.pop('run')}/{s['stream']}"
     devs = [{"name": n, "kind": s["kind"], "offset": s.get("offset", 0)} for n, s in sorted(sc["devices"].items())]
-    want = [[f"{d['run'][4:]}/{d['stream']}", d["seq"], sorted(d["data"].items())] for d in o["docs"] if d["k"] == "event" and d["stream"] != "interruptions"]
+    want = [[f"{d['run'][4:]}/{d['stream']}", d["seq"], sorted([k, v] for k, v in d["data"].items())] for d in o["docs"] if d["k"] == "event" and d["stream"] != "interruptions"]
     return {"op": "trace", "devices": devs, "steps": steps}, want
 
 
 def check_replay_model(res, pairs):
-    """run the small replay model on the traces of the implementation runs; its events must be the implementation's"""
-    reqs, wants = [], []
+    """(1) the small replay model run on the message trace of an implementation run must emit the implementation's
+    events (stream, seq_num, data), in order; (2) the Lean `replaySafeB` must agree with the Python evaluation of
+    ReplaySafe at every rewind whose cache holds only completed bundles"""
+    reqs, tags = [], []
     for sc, o in pairs:
         r, w = replay_trace(sc, o)
         reqs.append(json.dumps(r))
-        wants.append(w)
+        tags.append(("trace", sc, w))
+        for rw in replay_safe(sc, o)[1]:
+            if rw["cache"].count("create") == rw["cache"].count("save") + rw["cache"].count("drop"):
+                reqs.append(json.dumps(rw["lean"]))
+                tags.append(("safe", sc, rw["safe"]))
     replies = C.lean_batch(REPLAY_DRIVER, reqs, timeout=1500)
     n_bad = 0
-    for (sc, o), w, rep in zip(pairs, wants, replies):
-        got = [[e[0], e[1], sorted((k, v) for k, v in e[2])] for e in json.loads(rep)["events"]]
-        w = [[a, b, [list(x) for x in c]] for a, b, c in w]
-        got = [[a, b, [list(x) for x in c]] for a, b, c in got]
-        if got != w:
-            n_bad += 1
-            if n_bad <= 2:
-                first = next((i for i, (x, y) in enumerate(zip(got, w)) if x != y), min(len(got), len(w)))
-                res.disagreements.append({"case": sc, "first_difference": {"key": "replay-model-events", "index": first, "model": got[first:first + 2], "impl": w[first:first + 2]}})
-    res.count("replay-model-traces", len(pairs))
+    for (kind, sc, want), rep in zip(tags, replies):
+        rep = json.loads(rep)
+        if kind == "trace":
+            got = [[e[0], e[1], sorted([k, v] for k, v in e[2])] for e in rep["events"]]
+            res.count("replay-model-traces")
+            if got != want:
+                n_bad += 1
+                if n_bad <= 2:
+                    first = next((i for i, (x, y) in enumerate(zip(got, want)) if x != y), min(len(got), len(want)))
+                    res.disagreements.append({"case": sc, "first_difference": {"key": "replay-model-events", "index": first, "model": got[first:first + 2], "impl": want[first:first + 2], "lens": [len(got), len(want)]}})
+        else:
+            res.count("replay-safe-evaluations")
+            if rep["safe"] != want:
+                n_bad += 1
+                if n_bad <= 2:
+                    res.disagreements.append({"case": sc, "first_difference": {"key": "ReplaySafe", "model": rep["safe"], "impl": want}})
     return n_bad
 
 
